@@ -30,16 +30,20 @@ Has(r, f) == f \in DOMAIN r
 SafeEq(exp, got) == Has(got, "t") /\ exp.t = got.t /\ exp = got
 
 Arg(ev) == ev.a
-D(ev, i) == ev.d[i]
+\* the document an argument denotes: a text argument denotes its integers as the text parser
+\* reads them (non-negative integers unsigned)
+D(ev, i) == IF Has(ev, "rp") /\ i <= Len(ev.rp) /\ ev.rp[i] # 0 THEN ToUnsigned(ev.d[i]) ELSE ev.d[i]
 NDocs(ev) == IF Has(ev, "d") THEN Len(ev.d) ELSE 0
 Rp(ev, i) == IF Has(ev, "rp") /\ i <= Len(ev.rp) THEN ev.rp[i] ELSE 0
 
 \* the inputs the harness built are what the specification says they are
 CommonGround(ev) ==
-  \A i \in 1..NDocs(ev) :
-     IF Rp(ev, i) = 0 THEN Tup(ev.inp[i]) = Tup(Encode(D(ev, i)))
-     ELSE /\ LexemesOk(D(ev, i), IF Has(ev, "fl") THEN ev.fl ELSE <<>>)
-          /\ Tup(ev.inp[i]) = Tup(RenderText(D(ev, i), Rp(ev, i) - 1, IF Has(ev, "fl") THEN ev.fl ELSE <<>>))
+  /\ (ev.op = "comparable_all" => LexemesOk(ev.d[1], IF Has(ev, "fl") THEN ev.fl ELSE <<>>))
+  /\ \A i \in 1..NDocs(ev) :
+     IF Rp(ev, i) = 0 THEN Tup(ev.inp[i]) = Tup(Encode(ev.d[i]))
+     ELSE /\ LexemesOk(ev.d[i], IF Has(ev, "fl") THEN ev.fl ELSE <<>>)
+          /\ Tup(ev.inp[i]) = Tup(RenderText(ev.d[i], Rp(ev, i) - 1, IF Has(ev, "fl") THEN ev.fl ELSE <<>>))
+          /\ ev.inp[i][1] # 32
 
 \* C17: what was appended to a pre-filled buffer is what went into an empty one
 BufferOk(ev) ==
@@ -253,6 +257,8 @@ Accept(ev) ==
     [] op = "parse_value" -> ParseValueOk(ev)
     [] op = "render" -> RenderOk(ev)
     [] op = "serde" -> SerdeOk(ev)
+    [] op \in {"to_string", "to_pretty_string"} ->
+         ev.res.t = "str" /\ Parse(ev.res.v, TRUE) # Err /\ Denotes(Parse(ev.res.v, TRUE), D(ev, 1)) # "no"
     [] op = "decode" -> DecodeOk(ev)
     [] op = "lazy" -> LazyOk(ev)
     [] op = "num" -> NumInfoOk(ev)
@@ -272,6 +278,7 @@ Accept(ev) ==
     [] op = "exists_keys" -> SafeEq(RBool(IF a.all = 1 THEN ExistsAllKeys(D(ev, 1), a.keys) ELSE ExistsAnyKeys(D(ev, 1), a.keys)), ev.res)
     [] op = "traverse" -> SafeEq(RBool(TraverseCheckString(D(ev, 1), a.pred)), ev.res)
     [] op = "comparable2" -> ev.res.t = "keys" /\ LexCmp(ev.res.k0, ev.res.k1) = Cmp(D(ev, 1), D(ev, 2))
+    [] op = "comparable_all" -> ev.res.t = "keyset" /\ \A i \in 1..Len(ev.res.k) : Tup(ev.res.k[i]) = Tup(ev.res.k[1])
     [] op = "concat" -> SafeEq(RBytes(Encode(Concat(D(ev, 1), D(ev, 2)))), ev.res) /\ BufferOk(ev)
     [] op = "delete_by_name" -> SafeEq(REdit(DeleteByName(D(ev, 1), a.n)), ev.res) /\ BufferOk(ev)
     [] op = "delete_by_index" -> SafeEq(REdit(DeleteByIndex(D(ev, 1), a.i)), ev.res) /\ BufferOk(ev)
@@ -291,7 +298,8 @@ Accept(ev) ==
 
 \* "ok", "bad" (the code is not a step of the spec) or "tool" (the harness' own input is wrong)
 Verdict(ev) ==
-  IF ~CommonGround(ev) THEN "tool"
+  IF Has(ev.res, "t") /\ ev.res.t = "harness-error" THEN "tool"
+  ELSE IF ~CommonGround(ev) THEN "tool"
   ELSE IF Has(ev.res, "t") /\ Accept(ev) THEN "ok" ELSE "bad"
 
 Init == l = 1 /\ nbad = 0
